@@ -146,6 +146,11 @@ def evaluate(ctx, out, oracles, pid):
       ok = isinstance(out.exc, ValueError)
       obs.append(('total', ok, dict(exc='%s: %s' % (type(out.exc).__name__,
                                                     str(out.exc)[:200]))))
+    elif not isinstance(out.exc, ValueError):
+      # not this property's business (C09 judges exception types), but a
+      # path that ends in an unexpected exception proves nothing: report it.
+      obs.append(('unexpected-exception', None, dict(
+          exc='%s: %s' % (type(out.exc).__name__, str(out.exc)[:200]))))
     return obs, False
   if 'total' in oracles:
     obs.append(('total', isinstance(out.result, list), dict(n=len(
@@ -158,7 +163,7 @@ def evaluate(ctx, out, oracles, pid):
 
 def search_job(pid, name, panel, method, sym=(), conc=None, elig=None,
                oracles=(), seed=0, twin=False, max_s=600, elig_fix=None,
-               record_push=False, extra_oracle=None):
+               record_push=False, extra_oracle=None, path_timeout=None):
   """Explores all paths; per path discharges `pc => clause` for every oracle
   clause.  elig_fix: when elig == 'sym', dict geo->row-type fixing some rows
   (used to split the 7^N matrices over jobs)."""
@@ -176,7 +181,7 @@ def search_job(pid, name, panel, method, sym=(), conc=None, elig=None,
       # assume the fixed rows before the table is built
       pass
     out = search.run(ctx, method, sym=sym, conc=conc, elig=elig,
-                     record_push=record_push)
+                     record_push=record_push, path_timeout=path_timeout)
     out.budget_scoring = budget_scoring
     obs, nontrivial = evaluate(ctx, out, oracles, pid)
     if extra_oracle is not None:
@@ -207,6 +212,9 @@ def search_job(pid, name, panel, method, sym=(), conc=None, elig=None,
       obs = [('twin', False, {})]
     case_base = None
     for cname, f, det in obs:
+      if f is None:
+        js.r['inconclusive'].append('%s on a path: %s' % (cname, det))
+        continue
       js.r['obligations'] += 1
       if isinstance(f, (bool, np.bool_)):
         if f:
@@ -227,7 +235,7 @@ def search_job(pid, name, panel, method, sym=(), conc=None, elig=None,
                   elig=out.rows if elig is not None else None,
                   conc=search.apply_concrete(conc, vals), oracles=list(
                       oracles), extra_oracle=extra_oracle,
-                  record_push=record_push)
+                  record_push=record_push, path_timeout=path_timeout)
       if len(js.r['violations']) < 40:
         js.r['violations'].append(dict(case=case, clause=cname, twin=twin,
                                        detail=dict(clause=cname, info=det)))
@@ -263,7 +271,8 @@ def replay_search(case, pid):
       conc[k] = tuple(v)
   try:
     out = search.run(ctx, case['method'], sym=(), conc=conc, elig=elig,
-                     record_push=case.get('record_push', False))
+                     record_push=case.get('record_push', False),
+                     path_timeout=60 if case.get('path_timeout') else None)
   except ValueError as ex:
     return dict(violates=False, detail='input rejected: %s' % ex)
   out.budget_scoring = (case['method'] == 'exhaustive' and conc.get(
@@ -275,6 +284,8 @@ def replay_search(case, pid):
     obs.extend(getattr(importlib.import_module(mod), fname)(ctx, out))
   failed = []
   for cname, f, det in obs:
+    if f is None:
+      continue
     if not isinstance(f, (bool, np.bool_)):
       f = z3.is_true(z3.simplify(f))
     if not f:
